@@ -551,7 +551,7 @@ class RunLengthArray(NPSIndexable, np.lib.mixins.NDArrayOperatorsMixin):
         else:
             events = self._events[start_idx:end_idx+1]-sub
         events[..., 0] = 0
-        events[..., -1] = np.maximum(end-start, 0)
+        events[..., -1] = np.where(end > start, end-start, 0)  # (not maximum(end-start, 0): unsigned bounds wrap)
         return events, values
 
     def _getitem_bool(self, idx: 'RunLengthArray'):
